@@ -10,12 +10,12 @@ MODEL = dict(
         # the code as it is: exactly one way to violate C07 (the recorded known finding); emits behaviours
         dict(name="code", module="MC_RoleTransfer",
              constants=dict(_c, Depth=3, FIXED_C07=False, Emit=True),
-             thorough=dict(Depth=4),
+             thorough=dict(Depth=5),
              invariants=["KnownOnly", "Refines"]),
         # a repaired design (accept compares the explicit expiry): no monitor fails
         dict(name="repaired", module="MC_RoleTransfer",
-             constants=dict(_c, Depth=4, FIXED_C07=True, Emit=False),
-             thorough=dict(Depth=5),
+             constants=dict(_c, Depth=5, FIXED_C07=True, Emit=False),
+             thorough=dict(Depth=6),
              invariants=["NoViolation"]),
         # vacuity guard: the monitors do fail on the model of the code as it is
         dict(name="nonvacuous", module="MC_RoleTransfer",
